@@ -65,6 +65,9 @@ theorem accept_length (w : World) (k : Nat) :
 
 theorem userIO_At (w : World) (u i x : Nat) (h : At (userIO w u) i x) : At w i x := by
   unfold userIO at h
+  split at h
+  · exact h
+  unfold userIO0 at h
   dsimp only at h
   split at h
   · exact h
@@ -75,6 +78,9 @@ theorem userIO_At (w : World) (u i x : Nat) (h : At (userIO w u) i x) : At w i x
 theorem userIO_frame (w : World) (u : Nat) :
     (userIO w u).cursor = w.cursor ∧ (userIO w u).slots.length = w.slots.length ∧ (userIO w u).naccepted = w.naccepted := by
   unfold userIO
+  split
+  · exact ⟨rfl, rfl, rfl⟩
+  unfold userIO0
   dsimp only
   split
   · exact ⟨rfl, rfl, rfl⟩
